@@ -1,35 +1,13 @@
 /-
-Helper lemmas for the IPTW weight formulas generated from `iptw_calculator`
+Helper lemma for the IPTW weight formulas generated from `iptw_calculator`
 (`ZV.Gen.iptw_weight`): under a saturated treatment model every one of the six
 (stabilized × standardize) weight formulas balances each stratum to its target.
+(Constants and the population case: `Lemmas/IpwPop.lean`.)
 -/
-import ZepidVerif.Lemmas.CellFit
+import ZepidVerif.Lemmas.IpwPop
 namespace ZV.Std
 open ZV
 variable {F : Type} [Field F]
-
-/-- the stratum-independent proportionality constant of each weight formula -/
-def iptwConst (stab : Bool) (t : Tgt) (a : Bool) (n : F) : F :=
-  match stab, t, a with
-  | false, _, _ => 1
-  | true, .pop, true => n
-  | true, .pop, false => 1 - n
-  | true, .exposed, true => 1
-  | true, .exposed, false => (1 - n) / n
-  | true, .unexposed, true => n / (1 - n)
-  | true, .unexposed, false => 1
-
-theorem iptwConst_ne_zero (stab : Bool) (t : Tgt) (a : Bool) (n : F) (h0 : n ≠ 0) (h1 : n ≠ 1) :
-    iptwConst stab t a n ≠ 0 := by
-  have h1' : (1 : F) - n ≠ 0 := sub_ne_zero.mpr (Ne.symm h1)
-  cases stab <;> cases t <;> cases a <;> simp [iptwConst, h0, h1']
-
-/-- weight of the target in a stratum of total weight `Ws` when the treated fraction is `p` -/
-def tgtShare (t : Tgt) (p Ws : F) : F :=
-  match t with
-  | .pop => Ws
-  | .exposed => p * Ws
-  | .unexposed => (1 - p) * Ws
 
 /-- the generated weight formula times the arm's weight in the stratum = constant × target weight -/
 theorem iptw_weight_balance [DecidableEq F] [LT F] [LE F] [DecidableLT F] [DecidableLE F] [Transc F]
